@@ -1,5 +1,7 @@
 import NessaiVerif.Model.MetaProposal
 import NessaiVerif.Proofs.Meta
+import Mathlib.Tactic.Ring
+import Mathlib.Tactic.Push
 /-
 C03 — every INS sample carries the exact meta-proposal density and weight.
 Linear-domain model (Model/MetaProposal.lean); `D id k` is the density of proposal `k-1`
@@ -95,6 +97,55 @@ theorem weights_are_fractions (D : Nat → Nat → K) (hD0 : ∀ id, D id 0 = 1)
   refine ⟨by rw [hinv.weights, hinv.total], ?_, hinv.total⟩
   rw [hinv.weights]
   exact weights_sum_one s.counts hinv.nonempty
+
+/-- iteration labels of a store that holds `counts[0]` samples of the initial proposal (label −1), then
+`counts[1]` samples of proposal 0, … in the order they were added -/
+def itsOf : List Nat → Int → List Int
+  | [], _ => []
+  | c :: cs, k => List.replicate c k ++ itsOf cs (k + 1)
+
+omit [Field K] [CharZero K] [DecidableEq K] in
+theorem itsOf_append (cs : List Nat) (n : Nat) (k : Int) :
+    itsOf (cs ++ [n]) k = itsOf cs k ++ List.replicate n (k + cs.length) := by
+  induction cs generalizing k with
+  | nil => simp [itsOf]
+  | cons c cs ih =>
+    simp only [List.cons_append, itsOf, ih, List.append_assoc, List.length_cons]
+    congr 2
+    push_cast
+    ring_nf
+
+/-- **The counts are the numbers of samples actually drawn from each proposal**: the training set (and the
+independent set, when used) consists of exactly `counts[k]` samples labelled with proposal `k−1`, for every `k`.
+Together with `weights_are_fractions`: each weight is the fraction of samples drawn from its proposal. -/
+theorem samples_grouped_by_proposal (D : Nat → Nat → K) (hD0 : ∀ id, D id 0 = 1) (s : St K) (h : Reachable D s) :
+    s.train.map (·.it) = itsOf s.counts (-1) ∧
+    (s.useIid = true → s.iid.map (·.it) = itsOf s.counts (-1)) := by
+  induction h with
+  | pop useIid tr ii hne hsz =>
+    constructor
+    · simp [populate, itsOf, initSample, List.map_map, Function.comp_def, List.eq_replicate_iff]
+    · intro hu
+      simp only [populate] at hu
+      subst hu
+      simp only [if_true] at hsz
+      simp [populate, itsOf, initSample, List.map_map, Function.comp_def, List.eq_replicate_iff, hsz]
+  | iter s hs nAdd newT colT newI colI hin s' hok ih =>
+    have hinv := meta_invariant D hD0 s hs
+    obtain ⟨s'', hok', _, hcounts, _, _, huse, hitT, hitI⟩ := iteration_ok D s hinv nAdd newT colT newI colI hin
+    rw [hok] at hok'
+    cases hok'
+    have hlen : s.counts.length ≠ 0 := by
+      intro h0
+      have : s.counts = [] := List.length_eq_zero_iff.mp h0
+      exact hinv.nonempty (by simp [this])
+    have hcast : ((s.counts.length - 1 : Nat) : Int) = -1 + (s.counts.length : Int) := by omega
+    rw [hcounts, itsOf_append, ← hcast]
+    constructor
+    · rw [hitT, ih.1]
+    · intro hu
+      rw [huse] at hu
+      rw [hitI hu, ih.2 hu]
 
 /-- an iteration from a reachable state never raises when its inputs are consistent, and the training and
 independent sets grow by exactly the number of samples drawn -/
